@@ -57,7 +57,8 @@ def setup():
 
 SWEEP_G = 128        # consecutive run indices of a sweep block enumerate the switch points of one program
 BASE_SEED = 0
-SMALL_KINDS = ['factory', 'factory', 'parse_field', 'parse_component', 'segment_build', 'component_add_sub', 'parse_segment']
+SMALL_KINDS = ['factory', 'factory', 'parse_field', 'parse_component', 'segment_build', 'component_add_sub', 'parse_segment',
+               'field_override', 'field_dt', 'component_switch']
 
 
 def generate_sweep(idx):
